@@ -28,6 +28,7 @@ from .common import MachineryError
 
 LEVEL = "model_checking"
 TLC_WORKERS = 8
+MC_REPLAY_QUICK = 8000
 JAVA_ENV = {"JAVA_TOOL_OPTIONS": "-Xss32m"}   # deep (but finite) recursion of the interpreter on long programs
 
 RAW_BEFORE = ("callsubr", "callgsubr", "blend", "vsindex")
@@ -184,9 +185,11 @@ def finalize(tr):
     out = {"progs": progs, "dw": sc(tr["in"]["dw"]), "nw": sc(tr["in"]["nw"]), "nl": 0, "outs": [],
            "meta": tr.get("meta", {}), "scale": k}
     for o in tr["outs"]:
-        # positional (see Trace_C12: OName, OIdx, OStrict, OLim, OWm, ODw, ONw, OAdv, OEnd, ONl, ORaised)
-        d = [o["t"], 1 if o["raised"] else add(o), o["strict"], o["lim"], o["wm"],
-             sc(o["dw"]), sc(o["nw"]), sc(o["adv"]), o["end"], o["nl"], o["raised"]]
+        # positional (see Trace_C12: OName, OIdx, OStrict, OLim, OWm [, ODw, ONw, OAdv, OEnd, ONl, ORaised])
+        d = [o["t"], 1 if o["raised"] else add(o), o["strict"], o["lim"], o["wm"]]
+        ext = [sc(o["dw"]), sc(o["nw"]), sc(o["adv"]), o["end"], o["nl"], o["raised"]]
+        if ext != [out["dw"], out["nw"], 0, 0, 0, 0]:
+            d += ext
         if o.get("exc"):
             out.setdefault("exc", {})[o["t"]] = o["exc"]
         out["nl"] = max(out["nl"], o["nl"])
@@ -495,7 +498,7 @@ OUT_SPEC = {  # rewriting -> judge parameters
 }
 
 
-def font_traces(data, label, rng, want=None, with_subr=True, func_sample=None, pen=True):
+def font_traces(data, label, rng, want=None, with_subr=True, func_sample=None, pen=True, cap=None):
     """all traces of one font: one font-level trace per glyph and one function-level trace
     per glyph on its desubroutinised program.  returns (traces, skips{reason: n}, notes)"""
     skips = {}
@@ -514,7 +517,13 @@ def font_traces(data, label, rng, want=None, with_subr=True, func_sample=None, p
     for name, res in rew.items():
         if isinstance(res, list):
             after[name] = res
+    keep = set(range(len(orig)))
+    if cap is not None and len(orig) > cap:
+        keep = set([0] + rng.sample(range(1, len(orig)), cap - 1))
+        skip("glyph not in this tier's sample of a big font", len(orig) - len(keep))
     for gi, (gname, sd) in enumerate(orig):
+        if gi not in keep:
+            continue
         if not isinstance(sd, dict):
             skip("input: " + sd)
             continue
@@ -550,7 +559,7 @@ def font_traces(data, label, rng, want=None, with_subr=True, func_sample=None, p
     # function-level rewritings on the desubroutinised programs
     des = after.get("desubroutinize")
     if des:
-        idxs = list(range(len(des)))
+        idxs = [i for i in range(len(des)) if i in keep]
         if func_sample is not None and len(idxs) > func_sample:
             idxs = sorted(rng.sample(idxs, func_sample))
             skip("function-level rewritings: glyph not in this tier's sample of a big font", len(des) - len(idxs))
@@ -844,12 +853,12 @@ def _work_built(item):
     return tr, sk, notes
 
 
-def _work_corpus(item):
-    path, func_sample = item
-    rng = _rng_for(_CTX["seed"], "corpus", common.rel(path))
+def _work_corpus_load(path):
+    """-> ([(key, data)], skip-reason | None): every CFF/CFF2 font of a corpus file as bytes, keyed by
+    the bytes of its CFF table and hmtx (identical tables are judged once)"""
+    import hashlib
     from fontTools.ttLib import TTFont, TTCollection
 
-    out, skips, notes = [], {}, {}
     try:
         if path.lower().endswith(".ttx"):
             f = TTFont()
@@ -859,29 +868,35 @@ def _work_corpus(item):
             fs = TTCollection(path).fonts
         else:
             fs = [TTFont(path)]
-        datas = []
+        out = []
         for f in fs:
-            if cff_tag(f):
-                f.flavor = None
-                datas.append(save_font(f))
+            tag = cff_tag(f)
+            if not tag:
+                continue
+            f.flavor = None
+            data = save_font(f)
+            g = load_font(data)
+            h = hashlib.sha1(g.reader[tag])
+            h.update(g.reader["hmtx"] if "hmtx" in g.reader else b"")
+            out.append((h.hexdigest(), data))
+        return out, None
     except Exception as e:
-        return [], {"corpus font does not load: %s" % type(e).__name__: 1}, {}
-    for data in datas:
-        try:
-            tr, sk, nt = font_traces(data, common.rel(path), rng, func_sample=func_sample)
-        except Skip as e:
-            skips["font: " + str(e)] = skips.get("font: " + str(e), 0) + 1
-            continue
-        except Exception as e:
-            k = "corpus font cannot be taken apart by the harness: %s" % type(e).__name__
-            skips[k] = skips.get(k, 0) + 1
-            continue
-        out += tr
-        for k, v in sk.items():
-            skips[k] = skips.get(k, 0) + v
-        for k, v in nt.items():
-            notes["%s: %s" % (common.rel(path), k)] = v
-    return out, skips, notes
+        return [], "corpus file does not load/compile: %s" % type(e).__name__
+
+
+def _work_corpus(item):
+    label, data, cap, func_sample = item
+    rng = _rng_for(_CTX["seed"], "corpus", label)
+    skips, notes = {}, {}
+    try:
+        tr, skips, nt = font_traces(data, label, rng, func_sample=func_sample, cap=cap)
+    except Skip as e:
+        return [], {"font: " + str(e): 1}, {}
+    except Exception as e:
+        return [], {"corpus font cannot be taken apart by the harness: %s" % type(e).__name__: 1}, {}
+    for k, v in nt.items():
+        notes["%s: %s" % (label, k)] = v
+    return tr, skips, notes
 
 
 try:
@@ -982,7 +997,7 @@ def root_cause(t, clause):
     fed = t["progs"][0][1]
     if name == "respecialize":
         for o in t["outs"]:
-            if o[0] == "generalize" and not o[10]:
+            if o[0] == "generalize" and not (len(o) > 5 and o[10]):
                 fed = t["progs"][o[1] - 1][1]
     if blends_before_first_clear(fed) >= 2:
         return "programToCommands:cff2-width-miscount-after-several-blends"
@@ -1035,11 +1050,18 @@ def run(chk):
                                                                   "prog": enc_prog(p), "rg": [], "vsi": 0}))
             if rec["k"] == "small":
                 built_pool.append((enc_prog(p), rec["w"] >= 0, rec["w"]))
+    n_all_mc = len(items)
+    if not thorough and len(items) > MC_REPLAY_QUICK:
+        # quick tier replays a seeded sample of the exported programs (thorough: all of them)
+        items = [items[i] for i in sorted(rng.sample(range(len(items)), MC_REPLAY_QUICK))]
+        items = [(i,) + it[1:] for i, it in enumerate(items)]
+    chk.notes["mc_programs_exported"] = n_all_mc
+    chk.notes["mc_programs_replayed"] = len(items)
     n_mc = len(items)
 
     # ---- grammar-generated random programs ----------------------------------------------
-    n_rand = 60000 if thorough else 9000
-    n_cff2 = 20000 if thorough else 3000
+    n_rand = 40000 if thorough else 2500
+    n_cff2 = 12000 if thorough else 700
     rand_built = []
     for i in range(n_rand):
         p = rand_program(rng, "cff")
@@ -1071,8 +1093,8 @@ def run(chk):
 
     # ---- built fonts: subroutines, hint removal, CFF<->CFF2, widths, cffsubr ---------------
     # grammar programs whose width bookkeeping the generator knows
-    n_fonts = 400 if thorough else 70
-    per_font = 60
+    n_fonts = 300 if thorough else 30
+    per_font = 50
     pool = list(built_pool)
     rng.shuffle(pool)
     gl_rand = []
@@ -1118,23 +1140,31 @@ def run(chk):
                 head = fh.read(400000)
         except OSError:
             continue
-        if b"<CFF2>" in head or b"<CFF>" in head:
-            if b"<ttFont" in head[:600] and b"<GlyphOrder>" in head:
-                paths.append(pth)
-    work = [(p, (None if thorough else 250)) for p in paths]
+        if (b"<CFF2>" in head or b"<CFF>" in head) and b"<ttFont" in head[:600] and b"<GlyphOrder>" in head:
+            paths.append(pth)
     t0 = time.time()
+    loaded = common.pmap(_work_corpus_load, paths)
+    distinct, nfonts = {}, 0
+    for pth, (fonts_, why) in zip(paths, loaded):
+        if why:
+            chk.skip("corpus: " + why)
+        for key, data in fonts_:
+            nfonts += 1
+            distinct.setdefault(key, (common.rel(pth), data))
+    cap = None if thorough else 100
+    work = [(label, data, cap, cap) for _k, (label, data) in sorted(distinct.items(), key=lambda kv: kv[1][0])]
     res = common.pmap(_work_corpus, work)
     traces = []
-    nfonts = 0
     for tr, sk, notes in res:
         traces += tr
-        nfonts += 1 if tr else 0
         for k, v in sk.items():
             chk.skip("corpus: " + k, v)
         for k, v in notes.items():
             chk.notes.setdefault("corpus_rewriting_exceptions", {})[k] = v
-    chk.log("corpus: %d CFF/CFF2 fonts, %d traces in %.1fs" % (nfonts, len(traces), time.time() - t0))
+    chk.log("corpus: %d CFF/CFF2 fonts in %d files, %d distinct (CFF table, hmtx) pairs, %d traces in %.1fs"
+            % (nfonts, len(paths), len(distinct), len(traces), time.time() - t0))
     chk.notes["corpus_fonts_with_cff"] = nfonts
+    chk.notes["corpus_distinct_cff_tables"] = len(distinct)
     account(chk, traces)
     for t in traces[:1]:
         chk.sample({"meta": t["meta"], "in": t["progs"][0][1][:40], "rewritings": [o[0] for o in t["outs"]]})
@@ -1186,8 +1216,10 @@ def replay(chk, rep):
         traces.append(tr)
     elif meta.get("kind") in ("font", "font-func"):
         path = os.path.join(os.path.dirname(common.TESTS), meta["font"])
-        tr, _sk, _nt = _work_corpus((path, None))
-        traces += [t for t in tr if t["meta"].get("glyph") == meta.get("glyph")]
+        fonts_, _why = _work_corpus_load(path)
+        for _key, data in fonts_:
+            tr, _sk, _nt = _work_corpus((meta["font"], data, None, None))
+            traces += [t for t in tr if t["meta"].get("glyph") == meta.get("glyph") and t["meta"].get("kind") == meta["kind"]]
     if not traces:
         tr = dict(r["trace"])
         tr["meta"] = meta
